@@ -87,3 +87,18 @@ class Prepared:
     def describe(self):
         return {"cell": self.sc["name"], "lattice": self.sc["lattice"].tolist(), "positions": self.sc["positions"].tolist(),
                 "numbers": [int(x) for x in self.sc["numbers"]], "cutoff": self.cutoff}
+
+
+def solve_with_batch(o, P, orders, compact, bs):
+    """o.solve(...) with the snapshot batch size honoured also for single orders: the facade does not forward `batch_size`
+    to FCSolverO2/O3/O4 (their own defaults apply), so those solvers are called directly when bs is not the default."""
+    orders = list(orders)
+    if len(orders) == 1 and bs != 100:
+        from symfc.solvers import FCSolverO2, FCSolverO3, FCSolverO4
+        k = orders[0]
+        cls = {2: FCSolverO2, 3: FCSolverO3, 4: FCSolverO4}[k]
+        s = cls(P.basis[k], log_level=0).solve(o.displacements, o.forces, batch_size=bs)
+        o._force_constants[k] = s.compact_fc if compact else s.full_fc
+        return o
+    o.solve(orders=orders, is_compact_fc=compact, batch_size=bs)
+    return o
